@@ -152,3 +152,20 @@ check(
     "DESIGN.md section 3 C18",
     "unitlab",
 )
+
+ENGINES[0]["serves_properties"].append("C19")
+check(
+    "C19",
+    "exploration",
+    "find_critical is run on Hypothesis-generated Gaussian-sum flux functions (sub-grid shifts, rotation, both signs, "
+    "resolutions 24..100, non-square boxes, plus a mirror-symmetric tie stratum) and compared with the harness' own "
+    "multi-start Newton on the analytic function: every well-separated non-degenerate reference point inside the searched "
+    "interior returned exactly once, returned points critical on the harness' spline, classification = sign of Hessian "
+    "determinant, primary O-point nearest the centre, X-points ordered and filtered by the documented monotonic rule; "
+    "tokamak level: single vs double null decided by psinorm_sol around the secondary X-point, region count and "
+    "inner/outer leg labels; findSaddlePoint on rotated perturbed saddles.",
+    "Trusted base: analytic derivatives of the Gaussian family, harness Newton; ambiguous cases near thresholds excluded both ways and counted.",
+    "Hypothesis PBT against a reference model (analytic critical points)",
+    "DESIGN.md section 3 C19",
+    "unitlab",
+)
